@@ -52,6 +52,9 @@ pub enum T {
     PrependCurSame,
     /// unconditional set of a decimal number (a counter being reset by another client)
     SetNum,
+    /// incr by 0 carrying the current CAS / a stale one: a mutation like any other
+    IncrCurZero,
+    IncrStaleZero,
     /// stores carrying a TTL of 2 s (time stands still during the concurrent phase)
     SetTtl,
     AddTtl,
@@ -94,6 +97,8 @@ pub fn instantiate(t: T, client: usize, key: &[u8], other: &[u8]) -> Cmd {
         T::DecrCurSame => Cmd::Delta { incr: false, key: k, delta: 1, initial: 100, exp: 0, cas: CasArg::Current, quiet: false },
         T::AppendCurSame => Cmd::Concat { append: true, key: k, value: b"+".to_vec(), cas: CasArg::Current, quiet: false },
         T::PrependCurSame => Cmd::Concat { append: false, key: k, value: b"-".to_vec(), cas: CasArg::Current, quiet: false },
+        T::IncrCurZero => Cmd::Delta { incr: true, key: k, delta: 0, initial: 100, exp: 0, cas: CasArg::Current, quiet: false },
+        T::IncrStaleZero => Cmd::Delta { incr: true, key: k, delta: 0, initial: 100, exp: 0, cas: CasArg::Stale1, quiet: false },
         T::SetNum => Cmd::Store { kind: StoreKind::Set, key: k, value: format!("{}", 100 + client).into_bytes(), flags: 130 + client as u32, ttl: 0, cas: CasArg::Zero, quiet: false },
         T::SetTtl => Cmd::Store { kind: StoreKind::Set, key: k, value: tag("T"), flags: 110 + client as u32, ttl: 2, cas: CasArg::Zero, quiet: false },
         T::AddTtl => Cmd::Store { kind: StoreKind::Add, key: k, value: tag("U"), flags: 120 + client as u32, ttl: 2, cas: CasArg::Zero, quiet: false },
@@ -150,7 +155,7 @@ fn tagged(mut p: Program, tag: &'static str) -> Program {
 
 const INITS: [Init; 3] = [Init::Absent, Init::Present, Init::Expired];
 
-pub const C03_ALPHA: [T; 8] = [T::Get, T::Set, T::SetCur, T::SetStale, T::Del, T::DelCur, T::SetSame, T::SetCurSame];
+pub const C03_ALPHA: [T; 9] = [T::Get, T::Set, T::SetCur, T::SetStale, T::Del, T::DelCur, T::DelStale, T::SetSame, T::SetCurSame];
 pub const C04_RMW: [T; 6] = [T::Add, T::Replace, T::Append, T::Prepend, T::Incr, T::Decr];
 
 fn opts(max_bound: u32, tier: Tier) -> SchedOpts {
@@ -278,8 +283,8 @@ pub fn c04_families(tier: Tier) -> Vec<Family> {
     fams.push(Family { name: "2x1/random-policy".into(), programs: progs, opts: opts(if tier == Tier::Quick { 3 } else { 64 }, tier) });
     // read-modify-write commands guarded by the current CAS: of two that read the same version only
     // one may win, and a plain writer in between must make the guarded one fail
-    let guarded = [T::IncrCur, T::DecrCur, T::AppendCur, T::PrependCur];
-    let against = [T::IncrCur, T::DecrCur, T::AppendCur, T::PrependCur, T::Incr, T::Append, T::Set, T::SetCur, T::Del, T::Get, T::SetNum];
+    let guarded = [T::IncrCur, T::DecrCur, T::AppendCur, T::PrependCur, T::IncrCurZero];
+    let against = [T::IncrCur, T::DecrCur, T::AppendCur, T::PrependCur, T::Incr, T::Append, T::Set, T::SetCur, T::Del, T::Get, T::SetNum, T::IncrCurZero, T::IncrStaleZero];
     let mut progs = vec![];
     for (gi, g) in guarded.iter().enumerate() {
         for (oi, o) in against.iter().enumerate() {
